@@ -11,6 +11,7 @@ from torchtt._decomposition import QR, SVD, lr_orthogonal, rl_orthogonal, rank_c
 from torchtt._iterative_solvers import BiCGSTAB_reset, gmres_restart
 import opt_einsum as oe
 from .errors import *
+from torchtt import _verif
 
 
 try:
@@ -175,6 +176,7 @@ def _amen_mm_python(A_cores, B_cores, M, N, K, to_ttm, nswp=22, X0_cores=None, r
          ]  # size is rk x rAk x rBk
 
     last = False
+    _verif.emit('amen_begin', routine='mm', S=[int(m*n) for m, n in zip(M, N)], rx=[int(r) for r in rx], nswp=int(nswp), kick=int(kickrank+kick2), max_full=-1)
 
     normA = np.ones((d-1))
     normb = np.ones((d-1))
@@ -302,6 +304,7 @@ def _amen_mm_python(A_cores, B_cores, M, N, K, to_ttm, nswp=22, X0_cores=None, r
                 r = u.shape[1]
                 s = tn.ones(r,  dtype=dtype, device=device)
 
+            _r_tr, _r_add = int(r), 0
             u = u[:, :r]
             v = tn.diag(s[:r]) @ v[:r, :]
             v = v.t()
@@ -341,11 +344,13 @@ def _amen_mm_python(A_cores, B_cores, M, N, K, to_ttm, nswp=22, X0_cores=None, r
                     u, Rmat = QR(
                         tn.cat((u, tn.reshape(uk, [u.shape[0], -1])), 1))
                     r_add = uk.shape[-1]
+                    _r_add = int(r_add)
                     v = tn.cat(
                         (v, tn.zeros([rx[k+1], r_add],  dtype=dtype, device=device)), 1)
                     v = v @ Rmat.t()
 
                 r = u.shape[1]
+                _verif.emit('amen_step', swp=int(swp), k=int(k), rows=int(u.shape[0]), cols=int(rx[k+1]), use_full=True, r_tr=_r_tr, r_add=_r_add, r_out=int(r), last=bool(last))
                 v = tn.einsum('ji,jklm->iklm', v, x_cores[k+1])
                 # remove norm correction
                 nrmsc = nrmsc * normA[k] * normx[k] / normb[k]
@@ -408,6 +413,7 @@ def _amen_mm_python(A_cores, B_cores, M, N, K, to_ttm, nswp=22, X0_cores=None, r
         print('Finished after', swp+1, ' sweeps and ', time_total)
         print()
     normx = np.exp(np.sum(np.log(normx))/d)
+    _verif.emit('amen_end', rx=[int(r) for r in rx], sweeps=int(swp)+1, last=bool(last))
 
     for k in range(d):
         x_cores[k] = x_cores[k] * normx
